@@ -10,15 +10,16 @@ Headline theorems about the model `Irismod.Farm`.
 * (c) budget solvency `remaining ≥ rewardPerBlock × (end − max(last, start))` of every active
   pool: preserved by every operation outside the F-farm-2 class (`budget_step`,
   `budget_partial`), broken by an operation of the class (`budget_can_fail`);
-* (d) fairness, accumulator form: each farmer's cumulative payout is within
-  `n × (1 − 10⁻¹⁸)` base units of `Σ Δ rewardPerShare × stake` (`fair_partial`; `n` = the
-  farmer's number of interactions), per-step floor bound (`payout_step_bound`), and the
-  accumulator itself is the exact per-share release truncated at 18 decimals, over ℚ
-  (`release_truncation`).
+* (d) fairness: each farmer's cumulative payout is within `n × (1 − 10⁻¹⁸)` base units of
+  `Σ Δ rewardPerShare × stake` (`fair_partial`; `n` = the farmer's number of interactions),
+  per-step floor bound (`payout_step_bound`); the accumulator is the exact per-share release
+  truncated at 18 decimals (`release_truncation`, over ℚ); and against the exact rational
+  stake-time share: `paid − exact ≤ n`, `exact − paid ≤ n + slack·10⁻¹⁸` (`fairQ_partial`).
 All "partial" statements quantify over every history without an operation of the F-farm-2
 class (`Clean`); for (c) this exclusion is necessary.
 -/
 import Irismod.Proofs.FarmWitness
+import Irismod.Proofs.FarmFairQ
 import Mathlib.Algebra.Order.Field.Rat
 import Mathlib.Tactic.FieldSimp
 
@@ -172,6 +173,18 @@ with other farmers' and however often anyone harvests. -/
 theorem fair_partial (s0 : State) (ops : List Op) (hg : C05.Genesis s0) (hh : 0 ≤ s0.height)
     (hc : Clean s0 ops) : Fair (run s0 ops) :=
   (ledgerInv_run ops s0 (inv_genesis hg hh) hc (ledgerInv_genesis hg)).fair
+
+/-- **C06(d)**, against the exact rational stake-time share, over ℚ and every history outside
+the F-farm-2 class: with `exact = Σ_k released_k × stake_k / totalStake_k` (the untruncated
+share accrued up to the farmer's last interaction), `n` the farmer's number of interactions
+and `slack = Σ stake × (releases in the interval)`,
+`paid − exact ≤ n` and `exact − paid ≤ n + slack × 10⁻¹⁸`. -/
+theorem fairQ_partial (s0 : State) (ops : List Op) (hg : C05.Genesis s0) (hh : 0 ≤ s0.height)
+    (hc : Clean s0 ops) : ∀ k, LedgerFairQ (AMap.getD (run s0 ops).ledger k {}) := by
+  intro k
+  have hi := inv_genesis hg hh
+  exact fairQ_of ((ledgerInv_run ops s0 hi hc (ledgerInv_genesis hg)).fair k)
+    ((qInv_run ops s0 hi hc (qInv_genesis hg)).x k)
 
 /-- harvest-frequency independence as a corollary of `fair_partial`: two histories in which a
 farmer's accumulator share is the same (`owed`) pay him amounts that differ by less than the
